@@ -218,6 +218,9 @@ type Sched struct {
 	Clock   int64
 	timers  []*Timer
 	closed  map[uintptr]reflect.Value
+	// external: channels that goroutines outside the runtime close (never send on); a
+	// receive on them is probed with a non-consuming TryRecv
+	external map[uintptr]bool
 	choose  Chooser
 	Steps   int
 	MaxStep int
@@ -275,6 +278,7 @@ func Run(choose Chooser, maxSteps int, body func()) (failure string) {
 	S.Clock = Epoch0
 	S.timers = nil
 	S.closed = map[uintptr]reflect.Value{}
+	S.external = map[uintptr]bool{}
 	S.choose = choose
 	S.Steps = 0
 	S.MaxStep = maxSteps
@@ -468,6 +472,15 @@ func chanReady(t *Thread, i int, c Case, alts *[]Alt) int {
 		if c.Ch.Len() > 0 || isClosed {
 			*alts = append(*alts, Alt{T: t, Case: i})
 			return 1
+		}
+		if S.external[p] {
+			// nothing is ever sent on an external channel, so a successful TryRecv means
+			// that it has been closed
+			if v, ok := c.Ch.TryRecv(); v.IsValid() && !ok {
+				S.closed[p] = c.Ch
+				*alts = append(*alts, Alt{T: t, Case: i})
+				return 1
+			}
 		}
 	}
 	if c.Ch.Cap() == 0 {
@@ -730,7 +743,7 @@ func advanceClock() bool {
 	if next < 0 {
 		return false
 	}
-	if m := S.threads[0]; !m.done && next-m.LastRun > S.HangAfter {
+	if m := S.threads[0]; !m.done && next-m.LastRun > S.HangAfter && !(m.op != nil && m.op.Kind == OpSleep) {
 		S.Failure = fmt.Sprintf("hang: script thread blocked for more than %ds of virtual time: %s", S.HangAfter/1e9, dumpThreads())
 		return true
 	}
@@ -948,6 +961,13 @@ func PendingOp(id int) *Op {
 
 // ThreadDone reports whether thread id has finished.
 func ThreadDone(id int) bool { return id < 0 || id >= len(S.threads) || S.threads[id].done }
+
+// RegisterExternal declares a channel that is closed by goroutines outside the runtime.
+func RegisterExternal(ch interface{}) {
+	if S.Active {
+		S.external[chanPtr(ch)] = true
+	}
+}
 
 // NThreads returns the number of threads created so far in this run.
 func NThreads() int { return len(S.threads) }
